@@ -832,18 +832,26 @@ Proof.
 Qed.
 
 (** R for ST_Coordinate ( a:off/@x, a:ext/@cx, a:gridCol/@w ... ): integer literal or universal measure *)
+(** a helper function that returns the truth value of a test, called where a test is expected, is the test *)
+Lemma as_bool_of_bool (x : res bool) : as_bool (of_bool x) = x.
+Proof. destruct x as [[|]|]; reflexivity. Qed.
+
+(** both sides are brought to the same normal form (all generated definitions unfolded), so that the statement
+    survives the units-suffix test being moved into a helper function of the module *)
 Theorem R_Coordinate : forall lo hi sgn s, lex_ok (LUnion [LInt lo hi; LUnivMeasure sgn]) s = true ->
   (N.of_nat (length s) <= um_max_len)%N -> exists v, ST_Coordinate__from_xml (PStr s) = Ok v.
 Proof.
-  intros lo hi sgn s H L. unfold ST_Coordinate__from_xml, ST_Coordinate__convert_from_xml.
-  exact (coordinate_read (fun v => t <- py_int v ;; py_Emu t) s lo hi sgn (fun _ => eq_refl) H L).
+  intros lo hi sgn s H L.
+  pose proof (coordinate_read (fun v => t <- py_int v ;; py_Emu t) s lo hi sgn (fun _ => eq_refl) H L) as P.
+  revert P. unfold_gen. rewrite ?as_bool_of_bool. exact (fun P => P).
 Qed.
 
 Theorem R_Coordinate32 : forall lo hi sgn s, lex_ok (LUnion [LInt lo hi; LUnivMeasure sgn]) s = true ->
   (N.of_nat (length s) <= um_max_len)%N -> exists v, ST_Coordinate32__from_xml (PStr s) = Ok v.
 Proof.
-  intros lo hi sgn s H L. unfold ST_Coordinate32__from_xml, ST_Coordinate32__convert_from_xml.
-  exact (coordinate_read ST_Coordinate32Unqualified__convert_from_xml s lo hi sgn (fun _ => eq_refl) H L).
+  intros lo hi sgn s H L.
+  pose proof (coordinate_read ST_Coordinate32Unqualified__convert_from_xml s lo hi sgn (fun _ => eq_refl) H L) as P.
+  revert P. unfold_gen. rewrite ?as_bool_of_bool. exact (fun P => P).
 Qed.
 
 (** REFUTED for the type of a:pt/@x, a:pt/@y ( ST_AdjCoordinate = ST_Coordinate or a guide name ):
